@@ -963,10 +963,8 @@ def isDigit (c : Nat) : Bool := 48 ≤ c && c ≤ 57
 (underscores and non-ASCII digits, which CPython also accepts, are not modelled) -/
 def parseInt (tok : Text) : Option Int :=
   let t := strip tok
-  let (neg, ds) := match t with
-    | 45 :: r => (true, r)
-    | 43 :: r => (false, r)
-    | _ => (false, t)
+  let neg := t.head? = some 45
+  let ds := if t.head? = some 45 ∨ t.head? = some 43 then t.tail else t
   if ds = [] ∨ !ds.all isDigit then none
   else
     let v : Nat := ds.foldl (fun a c => a * 10 + (c - 48)) 0
@@ -996,7 +994,7 @@ def dictOf : List (Int × Text) → List (Int × Text)
   | (k, v) :: r =>
     let d := dictOf r
     match d.find? (·.1 = k) with
-    | some _ => (k, (match (r.reverse.find? (·.1 = k)) with | some kv => kv.2 | none => v)) :: d.filter (·.1 ≠ k)
+    | some kv => (k, kv.2) :: d.filter (·.1 ≠ k)
     | none => (k, v) :: d
 
 /-- `ArffLineReader._sparse(line)` -/
@@ -1060,10 +1058,7 @@ def arffAdvanced (n : Nat) (s : ALRF) (line : Text) : Except Err (ALRF × List T
 /-- `_dense_simple` with the switch to the fallback parser -/
 def arffSimpleF (n : Nat) (s : ALRF) (line : Text) : Except Err (ALRF × List Text) :=
   match simpleQuote s.qc line with
-  | none =>
-    -- the first of the two tests may already have stored `"` before the second one bails out
-    let qc1 := if line.contains DQ && s.qc = none then some DQ else s.qc
-    arffAdvanced n { s with qc := qc1 } line
+  | none => arffAdvanced n s line            -- only reached with a quote character already fixed: nothing was stored
   | some qc1 =>
     match csvFirst (arffDialect s.delim qc1) line with
     | .error e => .error e
@@ -1184,16 +1179,18 @@ def sparseRows (names : List Text) (encs : List Enc) (n : Nat) : List Text → E
     else match arffSparseLine n line with
       | .error e => .error e
       | .ok raw =>
-        let extra := ((notSparse encs).filter (fun i => !(raw.any (fun p => p.1 = (i : Int))))).map (fun i => ((i : Int), ZERO))
+        let extra := ((notSparse encs).filter (fun (i : Nat) => !(raw.any (fun p => p.1 = (i : Int))))).map (fun (i : Nat) => ((i : Int), ZERO))
         match sparseItems names encs (raw ++ extra) with
         | .error e => .error e
         | .ok items => match sparseRows names encs n ls with
           | .error e => .error e
           | .ok r => .ok (⟨items, sparseMissing line⟩ :: r)
 
-/-- `list(ArffReader().filter(lines))` with every row materialised -/
-def arffRead (lines : List Text) : Except Err ArffResult :=
-  let ls := (lines.map strip).filter (· ≠ [])
+/-- `filter(None, map(strip, lines))` -/
+def arffNormalize (lines : List Text) : List Text := (lines.map strip).filter (· ≠ [])
+
+/-- the reader on stripped, non-empty lines -/
+def arffReadN (ls : List Text) : Except Err ArffResult :=
   let head := ls.takeWhile (fun l => lowerAscii l ≠ kwData)
   let attrLines := head.filter (fun l => lowerAscii (l.take 5) = kwAttr)
   let data := (ls.dropWhile (fun l => lowerAscii l ≠ kwData)).drop 1
@@ -1216,5 +1213,106 @@ def arffRead (lines : List Text) : Except Err ArffResult :=
         match sparseRows names encs attrLines.length data with
         | .error e => .error e
         | .ok rows => .ok (.sparse names rows)
+
+/-- `list(ArffReader().filter(lines))` with every row materialised -/
+def arffRead (lines : List Text) : Except Err ArffResult := arffReadN (arffNormalize lines)
+
+
+/-! ### sparse ARFF writer (spec side) -/
+
+/-- value of a decimal index as written -/
+def digitsVal (ds : Text) : Int := ((ds.foldl (fun a c => a * 10 + (c - 48)) 0 : Nat) : Int)
+
+/-- `i v` items separated by a comma and `pad` blanks -/
+def sparseWriteItems (pad : Nat) : List (Text × Text) → Text
+  | [] => []
+  | [(d, v)] => d ++ 32 :: v
+  | (d, v) :: y :: r => d ++ 32 :: v ++ COMMA :: (List.replicate pad 32 ++ sparseWriteItems pad (y :: r))
+
+/-- `{i v,i v,…}` -/
+def sparseWriteRow (pad : Nat) (items : List (Text × Text)) : Text := LBRACE :: (sparseWriteItems pad items ++ [RBRACE])
+
+/-- a token the sparse tokenizer leaves alone: non-empty, no white space, no comma -/
+def sparseTokOk (t : Text) : Bool := t ≠ [] && t.all (fun c => !isPySpace c && c != COMMA)
+
+/-- hypotheses on a sparse row: indices are decimal digit strings, distinct and inside `[0,n)`;
+values are bare tokens (C12-F10: the reader has no quote handling) that do not end in a brace -/
+def sparseRowOk (n : Nat) (items : List (Text × Text)) : Bool :=
+  items.all (fun p => p.1 ≠ [] && p.1.all isDigit && sparseTokOk p.2 &&
+                      (match p.2.getLast? with | some c => c != RBRACE && c != LBRACE | none => false) &&
+                      digitsVal p.1 < (n : Int)) &&
+  (items.map (fun p => digitsVal p.1)).Nodup
+
+
+/-! ### ARFF header writer (spec side): Weka / liac-arff style -/
+
+/-- backslash before the quote character (always) and before any further character the writer
+likes (`also`; Weka: the other quote, `%`) -/
+def hdrEscape (q : Nat) (also : Nat → Bool) : Text → Text
+  | [] => []
+  | c :: t => if c = q ∨ also c = true then BS :: c :: hdrEscape q also t else c :: hdrEscape q also t
+
+/-- a name or nominal level as written: quoted (`x.1`) or bare -/
+def hdrWriteTok (q : Nat) (also : Nat → Bool) (x : Bool × Text) : Text :=
+  if x.1 then q :: (hdrEscape q also x.2 ++ [q]) else x.2
+
+/-- `{l1,l2,…}` with `pad` blanks after each comma -/
+def hdrWriteLevels (q : Nat) (also : Nat → Bool) (pad : Nat) : List (Bool × Text) → Text
+  | [] => []
+  | [x] => hdrWriteTok q also x
+  | x :: y :: r => hdrWriteTok q also x ++ COMMA :: (List.replicate pad 32 ++ hdrWriteLevels q also pad (y :: r))
+
+/-- what may stand in a quoted name/level for the reader to get it back (C12-F8: no backslash;
+C12-F9: the text must not begin with the separator — a comma for levels, white space for both) -/
+def quotedOk (isLevel : Bool) (v : Text) : Bool :=
+  !v.contains BS && (match v with | c :: _ => !isPySpace c && !(isLevel && c == COMMA) | [] => true)
+
+/-- what may be written bare: not empty, no separator inside (white space for names, comma for
+levels), no white space at the ends, not starting with a quote character -/
+def bareTokOk (isLevel : Bool) (v : Text) : Bool :=
+  v ≠ [] && (match v with | c :: _ => !isQuoteCh c && !isPySpace c | [] => false) &&
+  (match v.getLast? with | some c => !isPySpace c | none => false) &&
+  (if isLevel then !v.contains COMMA else v.all (fun c => !isPySpace c))
+
+def hdrTokOk (isLevel : Bool) (x : Bool × Text) : Bool := if x.1 then quotedOk isLevel x.2 else bareTokOk isLevel x.2
+
+
+/-- the type part of an attribute line as a writer emits it -/
+inductive TypeW where
+  | numeric (word : Text)                               -- `numeric` / `REAL` / `Integer` …
+  | string (word : Text)                                -- `string`, `date "yyyy-MM-dd"`, `relational` …
+  | nominal (pad : Nat) (levels : List (Bool × Text))   -- `{l1, l2, …}`
+
+def TypeW.text (q : Nat) (also : Nat → Bool) : TypeW → Text
+  | .numeric w => w
+  | .string w => w
+  | .nominal pad levels => LBRACE :: (hdrWriteLevels q also pad levels ++ [RBRACE])
+
+/-- the encoder the reader must come up with (sparse files get the extra level `'0'`) -/
+def TypeW.enc (isDense : Bool) : TypeW → Enc
+  | .numeric _ => .numeric
+  | .string _ => .str
+  | .nominal _ levels => .nominal (if isDense then levels.map (·.2) else ZERO :: levels.map (·.2))
+
+def TypeW.ok (isDense : Bool) : TypeW → Bool
+  | .numeric w => kwNumeric.contains (lowerAscii w) && strip w == w
+  | .string w => !kwNumeric.contains (lowerAscii w) && kwString.any (fun k => startsWith k (lowerAscii w)) &&
+                 strip w == w && w.head? != some LBRACE
+  | .nominal _ levels => levels ≠ [] && levels.all (hdrTokOk true) &&
+                 (if isDense then levels.map (·.2) else ZERO :: levels.map (·.2)).Nodup
+
+/-- one attribute line: keyword (any case), one separator character, the name, white space, the type -/
+structure AttrW where
+  kw : Text
+  sep : Nat
+  name : Bool × Text
+  gap : Text
+  typ : TypeW
+
+def AttrW.line (q : Nat) (also : Nat → Bool) (a : AttrW) : Text :=
+  a.kw ++ a.sep :: (hdrWriteTok q also a.name ++ a.gap ++ a.typ.text q also)
+
+def AttrW.ok (isDense : Bool) (a : AttrW) : Bool :=
+  lowerAscii a.kw == kwAttribute && hdrTokOk false a.name && a.gap ≠ [] && a.gap.all isPySpace && a.typ.ok isDense
 
 end Coba.C12
